@@ -6,6 +6,9 @@
 import Wbxml.Lemmas.EncWWf
 import Wbxml.Model.Typed.WvDate
 import Wbxml.Lemmas.TypedBinary
+import Wbxml.Lemmas.ParseSerTyped
+import Wbxml.Lemmas.TypedDatetime
+import Wbxml.Props.C11
 namespace Wbxml.Lemmas.EncW
 open Wbxml Wbxml.Model Wbxml.Spec
 open Wbxml.Model.Codec (mbEncode mbEncodeLoop b64DecodeE b64DecodeLoop b64Scan b64Decode)
@@ -47,8 +50,8 @@ theorem beLoop_length (k v : Nat) (acc : Bytes) : (beLoop k v acc).length ≤ k 
       omega
     · omega
 
-theorem encodeWvInt_shape (s : Bytes) (item : Bytes) (h : encodeWvInt s = .ok (some item)) :
-    ∃ p, item = serOpaque p := by
+theorem encodeWvInt_shape' (s : Bytes) (item : Bytes) (h : encodeWvInt s = .ok (some item)) :
+    ∃ p, item = serOpaque p ∧ p.length ≤ 4 := by
   unfold encodeWvInt at h
   split at h
   · cases h
@@ -56,12 +59,17 @@ theorem encodeWvInt_shape (s : Bytes) (item : Bytes) (h : encodeWvInt s = .ok (s
     · cases h
     · injection h with h; injection h with h
       rename_i v _ _
-      refine ⟨wvIntOctets v, ?_⟩
-      rw [← h, opaqueItem_eq]
       have := beLoop_length 4 v []
-      unfold wvIntOctets
       simp only [List.length_nil] at this
+      refine ⟨wvIntOctets v, ?_, this⟩
+      rw [← h, opaqueItem_eq]
+      unfold wvIntOctets
       omega
+
+theorem encodeWvInt_shape (s : Bytes) (item : Bytes) (h : encodeWvInt s = .ok (some item)) :
+    ∃ p, item = serOpaque p := by
+  obtain ⟨p, hp, _⟩ := encodeWvInt_shape' s item h
+  exact ⟨p, hp⟩
 
 /-! ### Wireless Village date-time -/
 
@@ -78,8 +86,8 @@ theorem wvDateOpaque_shape (s : Bytes) (item : WvItem) (h : wvDateOpaque s = .ok
     | (injection h with h; exact Or.inl h.symm)
     | (injection h with h; exact Or.inr ⟨_, h.symm, wvPack_length ..⟩)
 
-theorem encodeWvDate_shape (s : Bytes) (item : WvItem) (h : encodeWvDate s = .ok item) :
-    item.bytes = serStr (.inl s) ∨ ∃ p, item.bytes = serOpaque p := by
+theorem encodeWvDate_shape' (s : Bytes) (item : WvItem) (h : encodeWvDate s = .ok item) :
+    item.bytes = serStr (.inl s) ∨ ∃ p, item.bytes = serOpaque p ∧ p.length = 6 := by
   unfold encodeWvDate at h
   split at h
   · cases h
@@ -87,9 +95,15 @@ theorem encodeWvDate_shape (s : Bytes) (item : WvItem) (h : encodeWvDate s = .ok
     · injection h with h; subst h; exact Or.inl rfl
     · rcases wvDateOpaque_shape s item h with rfl | ⟨p, rfl, hp⟩
       · exact Or.inl rfl
-      · refine Or.inr ⟨p, ?_⟩
+      · refine Or.inr ⟨p, ?_, hp⟩
         simp only [WvItem.bytes]
         rw [opaqueItem_eq]; omega
+
+theorem encodeWvDate_shape (s : Bytes) (item : WvItem) (h : encodeWvDate s = .ok item) :
+    item.bytes = serStr (.inl s) ∨ ∃ p, item.bytes = serOpaque p := by
+  rcases encodeWvDate_shape' s item h with h | ⟨p, hp, _⟩
+  · exact Or.inl h
+  · exact Or.inr ⟨p, hp⟩
 
 /-! ### `%Datetime` -/
 
@@ -125,22 +139,36 @@ theorem stripZeros_length (bs : Bytes) : (stripZeros bs).length ≤ bs.length :=
   rw [List.length_reverse] at this
   exact this
 
+theorem encodeDatetime_shape' (s item : Bytes) (hs : s.length < 2 ^ 32) (h : encodeDatetime s = .ok item) :
+    ∃ p, item = serOpaque p ∧ datetimePayload s = .ok p ∧ p.length < 2 ^ 32 := by
+  unfold encodeDatetime at h
+  cases hp : datetimePayload s with
+  | error e => rw [hp] at h; cases h
+  | ok p =>
+    rw [hp] at h
+    injection h with h
+    have hlen : p.length < 2 ^ 32 := by
+      unfold datetimePayload at hp
+      cases hd : dtFilter s with
+      | error e => rw [hd] at hp; cases hp
+      | ok d =>
+        rw [hd] at hp
+        injection hp with hp
+        have h1 := dtFilter_length s d hd
+        have h2 := hexPairs_length d
+        have h3 := stripZeros_length (hexPairs d)
+        rw [← hp]
+        show (stripZeros (hexPairs d)).length < _
+        omega
+    refine ⟨p, ?_, rfl, hlen⟩
+    rw [← h]
+    show opaqueItem p = _
+    rw [opaqueItem_eq _ hlen]
+
 theorem encodeDatetime_shape (s item : Bytes) (hs : s.length < 2 ^ 32) (h : encodeDatetime s = .ok item) :
     ∃ p, item = serOpaque p := by
-  unfold encodeDatetime datetimePayload at h
-  cases hd : dtFilter s with
-  | error e => rw [hd] at h; cases h
-  | ok d =>
-    rw [hd] at h
-    injection h with h
-    refine ⟨stripZeros (hexPairs d), ?_⟩
-    rw [← h]
-    show opaqueItem (stripZeros (hexPairs d)) = _
-    rw [opaqueItem_eq]
-    have h1 := dtFilter_length s d hd
-    have h2 := hexPairs_length d
-    have h3 := stripZeros_length (hexPairs d)
-    omega
+  obtain ⟨p, hp, _⟩ := encodeDatetime_shape' s item hs h
+  exact ⟨p, hp⟩
 
 /-! ### OTA `ICON` / DRMREL `ds:KeyValue`: the encoder model and the C12 typed model agree -/
 
@@ -188,5 +216,468 @@ theorem otaIconW_typed (attrs : List Attr) (s : Bytes) (hs : s.length < 2 ^ 32) 
   | some t =>
     simp only [otaIconW, hc, hi, if_true, hd, ← ho]
     rfl
+
+
+/-! ### Reader side: which opaques the typed decoders of the parser accept -/
+
+/-- The tags whose opaque content the parser decodes by a typed rule (`decode_opaque_content`):
+    Wireless Village integer / date-time elements, DRMREL `ds:KeyValue`, SyncML `NextNonce`. The
+    rule depends on the language, the code page and the token only. -/
+def typedRow (langId : Nat) (r : TagRow) : Bool :=
+  (isWv langId && (wvDataType r.page r.token != WvType.string)) ||
+  (langId == 1801 && r.page == 0 && r.token == 0x0C) ||
+  (isSyncml langId && r.page == 1 && r.token == 0x10)
+
+def typedOpt (langId : Nat) : Option TagRow → Bool
+  | some r => typedRow langId r
+  | none => false
+
+theorem typedRow_congr (id : Nat) (r r' : TagRow) (hp : r'.page = r.page) (ht : r'.token = r.token) :
+    typedRow id r' = typedRow id r := by
+  simp only [typedRow, hp, ht]
+
+theorem untyped_opt_content (id : Nat) (o : Option TagRow) (d : Bytes) (h : typedOpt id o = false) :
+    decodeOpaqueContent id o d = .ok d := by
+  unfold decodeOpaqueContent
+  cases o with
+  | none => simp only; split <;> (try split) <;> (try split) <;> rfl
+  | some t =>
+    simp only [typedOpt, typedRow, Bool.or_eq_false_iff, Bool.and_eq_false_iff] at h
+    obtain ⟨⟨h1, h2⟩, h3⟩ := h
+    by_cases hw : isWv id = true
+    · simp only [hw, ↓reduceIte]
+      rcases h1 with h1 | h1
+      · rw [hw] at h1; cases h1
+      · have : wvDataType t.page t.token = .string := by simpa using h1
+        rw [this]
+    · simp only [hw, Bool.false_eq_true, ↓reduceIte]
+      by_cases hd : (id == 1801) = true
+      · simp only [hd, ↓reduceIte]
+        split
+        · rename_i hh; simp_all
+        · rfl
+      · simp only [hd, Bool.false_eq_true, ↓reduceIte]
+        by_cases hs : isSyncml id = true
+        · simp only [hs, ↓reduceIte]
+          split
+          · rename_i hh; simp_all
+          · rfl
+        · simp only [hs, Bool.false_eq_true, ↓reduceIte]
+
+theorem opaqueText_untyped (ctx : Ctx) (o : Option TagRow) (d : Bytes) (h : typedOpt ctx.lang.id o = false) :
+    opaqueText ctx o d = some d := by
+  simp only [opaqueText, untyped_opt_content _ o d h]
+
+theorem beNat_lt_of_le4 : ∀ d : Bytes, d.length ≤ 4 → Lemmas.Typed.beNat d < 4294967296
+  | [], _ => by decide
+  | [a], _ => by have := a.toNat_lt; simp only [Lemmas.Typed.beNat, List.foldl]; omega
+  | [a, b], _ => by have := a.toNat_lt; have := b.toNat_lt; simp only [Lemmas.Typed.beNat, List.foldl]; omega
+  | [a, b, c], _ => by
+    have := a.toNat_lt; have := b.toNat_lt; have := c.toNat_lt; simp only [Lemmas.Typed.beNat, List.foldl]; omega
+  | [a, b, c, e], _ => by
+    have := a.toNat_lt; have := b.toNat_lt; have := c.toNat_lt; have := e.toNat_lt
+    simp only [Lemmas.Typed.beNat, List.foldl]; omega
+  | _ :: _ :: _ :: _ :: _ :: _, h => by simp only [List.length_cons] at h; omega
+
+/-- (a) An opaque of at most four octets is accepted by `decode_wv_integer`, as the decimal numeral
+    of its big-endian value. -/
+theorem decodeWvInteger_le4 (d : Bytes) (h : d.length ≤ 4) :
+    decodeWvInteger d = .ok (natDigits (Lemmas.Typed.beNat d)) := by
+  rw [Lemmas.ParseSer.decodeWvInteger_spec, if_pos (beNat_lt_of_le4 d h)]
+
+/-- (b) Any six octets are accepted by `decode_wv_datetime`. -/
+theorem decodeWvDatetime_len6 (d : Bytes) (h : d.length = 6) : ∃ b, decodeWvDatetime d = .ok b := by
+  match d, h with
+  | [b0, b1, b2, b3, b4, b5], _ =>
+    unfold decodeWvDatetime
+    simp only
+    split
+    · exact ⟨_, rfl⟩
+    · split <;> exact ⟨_, rfl⟩
+
+theorem binToHexUpper_length (d : Bytes) : (binToHexUpper d).length = 2 * d.length := by
+  induction d with
+  | nil => rfl
+  | cons b bs ih =>
+    simp only [binToHexUpper, List.flatMap_cons, List.length_append, List.length_cons, List.length_nil] at ih ⊢
+    omega
+
+/-- (c) `decode_datetime` accepts exactly four to seven octets. -/
+theorem decodeDatetime_len (d : Bytes) (h1 : 4 ≤ d.length) (h2 : d.length ≤ 7) :
+    ∃ b, Model.decodeDatetime d = .ok b := by
+  unfold Model.decodeDatetime
+  have hl := binToHexUpper_length d
+  simp only
+  rw [if_neg]
+  · exact ⟨_, rfl⟩
+  · simp only [hl, Bool.or_eq_true, decide_eq_true_eq, beq_iff_eq, not_or]
+    omega
+
+theorem decodeDatetime_bad (d : Bytes) (h : d.length < 4 ∨ 7 < d.length) :
+    Model.decodeDatetime d = .error (.code E.badDatetime) := by
+  unfold Model.decodeDatetime
+  have hl := binToHexUpper_length d
+  simp only
+  rw [if_pos]
+  simp only [hl, Bool.or_eq_true, decide_eq_true_eq, beq_iff_eq]
+  omega
+
+/-- The two `switch` ladders agree where the encoder types content: what `wbxml_encode_wv_content`
+    sends as an integer / a date-time, `decode_wv_content` reads as one (the parser additionally
+    knows the integers of code page 5, which the encoder sends as strings). -/
+theorem wvKind_compat (p t : Nat) :
+    (wvEncKind p t = .integer → wvDataType p t = .integer) ∧
+    (wvEncKind p t = .dateTime → wvDataType p t = .datetime) := by
+  unfold wvEncKind wvDataType
+  split <;> simp only [List.mem_cons, List.mem_nil_iff, or_false, beq_iff_eq, Bool.or_eq_true] <;>
+    (repeat' split) <;> simp_all <;> omega
+
+/-! ### Bridges: the parser's typed decoders are the T-codec decoders of C12 -/
+
+theorem baToList_loop (bs : ByteArray) (i : Nat) (r : List UInt8) (hi : i ≤ bs.size) :
+    ByteArray.toList.loop bs i r = r.reverse ++ bs.data.toList.drop i := by
+  have hs : bs.size = bs.data.toList.length := by rw [Array.length_toList]; rfl
+  fun_induction ByteArray.toList.loop bs i r with
+  | case1 i r hlt ih =>
+    rw [ih (by omega)]
+    have hlt' : i < bs.data.toList.length := by omega
+    rw [List.drop_eq_getElem_cons hlt', List.reverse_cons, List.append_assoc]
+    congr 1
+    have hlt2 : i < bs.data.size := by rw [Array.length_toList] at hlt'; exact hlt'
+    have : bs.get! i = bs.data.toList[i] := by
+      show bs.data[i]! = _
+      rw [getElem!_pos bs.data i hlt2, Array.getElem_toList]
+    rw [this]; rfl
+  | case2 i r hge =>
+    have : bs.data.toList.length ≤ i := by omega
+    rw [List.drop_eq_nil_of_le this, List.append_nil]
+
+theorem baToList_eq (bs : ByteArray) : bs.toList = bs.data.toList := by
+  unfold ByteArray.toList
+  rw [baToList_loop bs 0 [] (Nat.zero_le _)]
+  rfl
+
+theorem digit_bytes : ∀ k, k < 10 →
+    (String.singleton (Nat.digitChar k)).toByteArray.data.toList = [Typed.digitChar k] := by
+  decide +kernel
+
+theorem natDigits_eq_decNat (n : Nat) : natDigits n = Typed.decNat n := by
+  unfold natDigits
+  rw [String.toUTF8, baToList_eq]
+  induction n using Nat.strongRecOn with
+  | _ n ih =>
+    by_cases h : n < 10
+    · rw [Nat.toString_eq_repr, Nat.repr_of_lt h, Lemmas.Typed.decNat_lt h]
+      exact digit_bytes n h
+    · have h' : 10 ≤ n := by omega
+      rw [Nat.toString_eq_repr, Nat.repr_of_ge h', String.toByteArray_append, ByteArray.toList_data_append,
+        Lemmas.Typed.decNat_ge h']
+      have := ih (n / 10) (by omega)
+      rw [Nat.toString_eq_repr] at this
+      rw [this, digit_bytes (n % 10) (Nat.mod_lt _ (by decide))]
+      congr 2
+      simp [Typed.digitChar]
+
+theorem hexByte_tbl : ∀ n, n < 256 →
+    [hexUpper ((UInt8.ofNat n).toNat / 16), hexUpper ((UInt8.ofNat n).toNat % 16)] =
+    [Typed.hexitU (UInt8.ofNat n / 16 &&& 0xF), Typed.hexitU (UInt8.ofNat n % 16)] := by decide +kernel
+
+theorem binToHexUpper_eq (p : Bytes) : binToHexUpper p = Typed.binToHex p := by
+  induction p with
+  | nil => rfl
+  | cons b bs ih =>
+    have hb := hexByte_tbl b.toNat b.toNat_lt
+    rw [UInt8.ofNat_toNat] at hb
+    simp only [binToHexUpper, List.flatMap_cons] at ih ⊢
+    rw [ih, hb]
+    rfl
+
+theorem decodeDatetime_eq_typed (p : Bytes) (h1 : 4 ≤ p.length) (h2 : p.length ≤ 7) :
+    Model.decodeDatetime p = Typed.decodeDatetime p := by
+  unfold Model.decodeDatetime Typed.decodeDatetime Typed.decodeHex
+  rw [binToHexUpper_eq]
+  match p, h1, h2 with
+  | [a, b, c, d], _, _ => simp [Typed.binToHex, Typed.insertAt, Model.insertAt, bind, Except.bind, pure, Except.pure]
+  | [a, b, c, d, e], _, _ => simp [Typed.binToHex, Typed.insertAt, Model.insertAt, bind, Except.bind, pure, Except.pure]
+  | [a, b, c, d, e, f], _, _ => simp [Typed.binToHex, Typed.insertAt, Model.insertAt, bind, Except.bind, pure, Except.pure]
+  | [a, b, c, d, e, f, g], _, _ => simp [Typed.binToHex, Typed.insertAt, Model.insertAt, bind, Except.bind, pure, Except.pure]
+  | [], h, _ => simp at h
+  | [_], h, _ => simp at h
+  | [_, _], h, _ => simp at h
+  | [_, _, _], h, _ => simp at h
+  | _ :: _ :: _ :: _ :: _ :: _ :: _ :: _ :: _, _, h => simp at h
+
+theorem decNat_len1 (n : Nat) (h : n < 10) : (decNat n).length = 1 := by rw [Lemmas.Typed.decNat_lt h]; rfl
+theorem decNat_len2 (n : Nat) (h1 : 10 ≤ n) (h2 : n < 100) : (decNat n).length = 2 := by
+  rw [Lemmas.Typed.decNat_ge h1, List.length_append, decNat_len1 _ (by omega)]; rfl
+theorem decNat_len3 (n : Nat) (h1 : 100 ≤ n) (h2 : n < 1000) : (decNat n).length = 3 := by
+  rw [Lemmas.Typed.decNat_ge (by omega), List.length_append, decNat_len2 _ (by omega) (by omega)]; rfl
+theorem decNat_len4 (n : Nat) (h1 : 1000 ≤ n) (h2 : n < 10000) : (decNat n).length = 4 := by
+  rw [Lemmas.Typed.decNat_ge (by omega), List.length_append, decNat_len3 _ (by omega) (by omega)]; rfl
+
+theorem pad2_eq (n : Nat) (h : n < 100) : pad2 n = padNat 2 n := by
+  unfold pad2 padNat
+  rw [natDigits_eq_decNat]
+  by_cases h1 : n < 10
+  · simp only [h1, ↓reduceIte, decNat_len1 n h1]; rfl
+  · simp only [h1, ↓reduceIte, decNat_len2 n (by omega) h]; rfl
+
+theorem pad4_eq (n : Nat) (h : n < 10000) : pad4 n = padNat 4 n := by
+  unfold pad4 padNat
+  rw [natDigits_eq_decNat]
+  by_cases h1 : n < 10
+  · simp only [h1, ↓reduceIte, decNat_len1 n h1]; rfl
+  · by_cases h2 : n < 100
+    · simp only [h1, h2, ↓reduceIte, decNat_len2 n (by omega) h2]; rfl
+    · by_cases h3 : n < 1000
+      · simp only [h1, h2, h3, ↓reduceIte, decNat_len3 n (by omega) h3]; rfl
+      · simp only [h1, h2, h3, ↓reduceIte, decNat_len4 n (by omega) h]; rfl
+
+theorem wvbits1 : ∀ b, b < 256 →
+    ((b &&& 0x3F) <<< 6 = (b % 64) * 64) ∧ ((b >>> 2) &&& 0x3F = (b / 4) % 64) ∧
+    ((b &&& 0x03) <<< 2 = (b % 4) * 4) ∧ ((b >>> 6) &&& 0x03 = (b / 64) % 4) ∧
+    ((b >>> 1) &&& 0x1F = (b / 2) % 32) ∧ ((b &&& 0x01) <<< 4 = (b % 2) * 16) ∧
+    ((b >>> 4) &&& 0x0F = (b / 16) % 16) ∧ ((b &&& 0x0F) <<< 2 = (b % 16) * 4) ∧ (b &&& 0x3F = b % 64) := by
+  decide +kernel
+
+theorem wvbits_or1 : ∀ u, u < 4 → ∀ w, w < 4 → (u * 4) ||| w = u * 4 + w := by decide
+theorem wvbits_or2 : ∀ u, u < 2 → ∀ w, w < 16 → (u * 16) ||| w = u * 16 + w := by decide
+theorem wvbits_or3 : ∀ u, u < 16 → ∀ w, w < 4 → (u * 4) ||| w = u * 4 + w := by decide
+
+theorem decodeWvDatetime_eq_typed (p : Bytes) : decodeWvDatetime p = Typed.decodeWvDate p := by
+  unfold decodeWvDatetime Typed.decodeWvDate
+  split
+  · rename_i b0 b1 b2 b3 b4 b5
+    have h0 := wvbits1 b0.toNat b0.toNat_lt
+    have h1 := wvbits1 b1.toNat b1.toNat_lt
+    have h2 := wvbits1 b2.toNat b2.toNat_lt
+    have h3 := wvbits1 b3.toNat b3.toNat_lt
+    have h4 := wvbits1 b4.toNat b4.toNat_lt
+    simp only
+    rw [h0.1, h1.2.1, h1.2.2.1, h2.2.2.2.1, h2.2.2.2.2.1, h2.2.2.2.2.2.1, h3.2.2.2.2.2.2.1, h3.2.2.2.2.2.2.2.1,
+      h4.2.2.2.1, h4.2.2.2.2.2.2.2.2,
+      wvbits_or1 _ (Nat.mod_lt _ (by decide)) _ (Nat.mod_lt _ (by decide)),
+      wvbits_or2 _ (Nat.mod_lt _ (by decide)) _ (Nat.mod_lt _ (by decide)),
+      wvbits_or3 _ (Nat.mod_lt _ (by decide)) _ (Nat.mod_lt _ (by decide))]
+    have e0 := b0.toNat_lt; have e1 := b1.toNat_lt; have e2 := b2.toNat_lt; have e3 := b3.toNat_lt; have e4 := b4.toNat_lt
+    rw [pad4_eq _ (by omega), pad2_eq _ (by omega), pad2_eq _ (by omega), pad2_eq _ (by omega), pad2_eq _ (by omega)]
+    rw [pad2_eq (b4.toNat % 64) (by omega)]
+    simp only [wvDateText, wvFields, wvZoneText]
+    by_cases hz : b5 = 0
+    · subst hz
+      simp only [beq_self_eq_true, ↓reduceIte, bne_iff_ne, ne_eq, ite_not, List.append_assoc]
+      by_cases hs : b4.toNat % 64 = 0 <;> simp only [hs, ↓reduceIte, not_true_eq_false, not_false_eq_true]
+    · have hz' : (b5 == 0) = false := by simpa using hz
+      simp only [hz', Bool.false_eq_true, ↓reduceIte, hz]
+      have hc : (decide (b5.toNat < 65) || decide (b5.toNat > 90) || b5 == 74) = (decide (b5 < 0x41) || decide (b5 > 0x5A) || b5 == 0x4A) := by
+        simp only [UInt8.lt_iff_toNat_lt, gt_iff_lt]; rfl
+      rw [hc]
+      split <;> simp only [bne_iff_ne, ne_eq, ite_not, List.append_assoc, List.append_nil] <;>
+        (by_cases hs : b4.toNat % 64 = 0 <;> simp only [hs, ↓reduceIte, not_true_eq_false, not_false_eq_true])
+  · rename_i hne
+    split
+    · rename_i b0 b1 b2 b3 b4 b5
+      exact absurd rfl (hne b0 b1 b2 b3 b4 b5)
+    · rfl
+
+/-! ### Normal forms of typed text ("by value")
+
+  What comes back for a typed text is not the text but its normal form: `0200` ↦ `200`; base64 text
+  re-encoded canonically (no white space, no line wrapping); a date-time in the canonical form of
+  the instant. Each normal form is idempotent. -/
+
+/-- Wireless Village integer: the decimal numeral of the number the text denotes (decimal or `0x…`),
+    when it is one below 2^32; other text is carried as a string, unchanged. -/
+def wvIntNorm (s : Bytes) : Bytes :=
+  match wvIntNumeral s with
+  | some v => if v < 4294967296 then decNat v else s
+  | none => s
+
+theorem wvIntNorm_idem (s : Bytes) : wvIntNorm (wvIntNorm s) = wvIntNorm s := by
+  unfold wvIntNorm
+  cases hn : wvIntNumeral s with
+  | none => simp only [hn]
+  | some v =>
+    by_cases hv : v < 4294967296
+    · simp only [hv, ↓reduceIte]
+      rw [Lemmas.Typed.wvIntNumeral_digits _ (Lemmas.Typed.decNat_ne_nil v) (Lemmas.Typed.all_isDigit_decNat v),
+        Lemmas.Typed.decVal_decNat]
+      simp only [hv, ↓reduceIte]
+    · simp only [hv, ↓reduceIte, hn]
+
+/-- base64-carried text: the RFC 4648 encoding of the octets the text denotes (white space removed,
+    decoding stops at the first foreign character — `wbxml_base64_decode`). -/
+def b64Norm (s : Bytes) : Bytes :=
+  match b64DecodeE (b64TextW s) with
+  | .ok d => Codec.b64Encode d
+  | .error _ => s
+
+theorem b64TextW_encode (d : Bytes) : b64TextW (Codec.b64Encode d) = Codec.b64Encode d := by
+  rw [b64TextW_eq]; exact Lemmas.Typed.b64Encode_filter d
+
+theorem b64DecodeE_encode (d : Bytes) : b64DecodeE (Codec.b64Encode d) = .ok d := by
+  cases d with
+  | nil => rw [Wbxml.Lemmas.Codec.b64DecodeE_eq]; rfl
+  | cons a t =>
+    have h := Wbxml.Props.C11.b64_decode_encode (a :: t) (by simp)
+    unfold Codec.b64Decode at h
+    rw [Wbxml.Lemmas.Codec.b64DecodeE_eq] at h ⊢
+    split at h
+    · cases h
+    · injection h with h; rename_i d' heq; injection heq with heq; rw [heq, h]
+    · cases h
+
+theorem b64Norm_idem (s : Bytes) : b64Norm (b64Norm s) = b64Norm s := by
+  have h1 : b64Norm s = Codec.b64Encode (b64DecodeLoop (b64Scan (b64TextW s))) := by
+    unfold b64Norm; rw [Wbxml.Lemmas.Codec.b64DecodeE_eq]
+  rw [h1]
+  unfold b64Norm
+  rw [b64TextW_encode, b64DecodeE_encode]
+
+/-- `%Datetime` text: what `decode_datetime` makes of the octets `wbxml_encode_datetime` writes. -/
+def datetimeNorm (s : Bytes) : Bytes :=
+  match datetimePayload s with
+  | .ok p => (match Model.decodeDatetime p with | .ok t => t | .error _ => s)
+  | .error _ => s
+
+/-- For every valid calendar date-time the normal form of the canonical text `YYYY-MM-DDThh:mm:ssZ`
+    is that text (C12 `datetime_roundtrip`), so the normal form is idempotent on valid date-times. -/
+theorem datetimeNorm_canon (d : Spec.Calendar.DateTime) (h : d.Valid) :
+    datetimeNorm (Spec.Calendar.canon d) = Spec.Calendar.canon d := by
+  have hp := Lemmas.Typed.datetimePayload_canon d h
+  have hk := Lemmas.Typed.keptOctets_range d
+  have hl : ((Spec.Calendar.bcd7 d).take (Spec.Calendar.keptOctets d)).length = Spec.Calendar.keptOctets d := by
+    have : (Spec.Calendar.bcd7 d).length = 7 := by simp [Spec.Calendar.bcd7]
+    rw [List.length_take, this]; omega
+  unfold datetimeNorm
+  rw [hp]
+  simp only
+  rw [decodeDatetime_eq_typed _ (by rw [hl]; exact hk.1) (by rw [hl]; exact hk.2),
+    Lemmas.Typed.decodeDatetime_take d h _ hk, Lemmas.Typed.truncTo_kept]
+
+/-! ### Source side: the decidable hypotheses under which every typed opaque is well-formed
+
+  Each stands for a recorded finding (`known_findings.json`, or D5 of DESIGN_NOTES/EncWbxml.md);
+  all are `true` for every tree of a language without typed content. -/
+
+/-- Finding `invalid-datetime-attribute-accepted`: the text of an SI `created` / `si-expires` or EMN
+    `timestamp` value is a date-time, i.e. its digits form four to seven BCD octets once trailing zero
+    octets are dropped (or nothing at all) — what `decode_datetime` accepts. Text the encoder itself
+    refuses (`dtFilter` error 11) needs no condition. -/
+def validDatetimeText (v : Bytes) : Bool :=
+  match datetimePayload v with
+  | .ok p => p.isEmpty || (decide (4 ≤ p.length) && decide (p.length ≤ 7))
+  | .error _ => true
+
+/-- D5 (`empty opaque for text that is not base64`): the text decodes to at least one octet. -/
+def b64NonEmpty (s : Bytes) : Bool :=
+  match b64DecodeE (b64TextW s) with
+  | .ok d => !d.isEmpty
+  | .error _ => true
+
+/-- The C string `parse_text` hands to the value encoder outside CDATA. -/
+def textArg (c : WCfg) (s : Bytes) : Bytes := cstrOf (if c.removeBlanks then stripBlanks s else s)
+
+/-- Text that produces no output at all outside CDATA (ignorable white space, empty C string). -/
+def textSilent (c : WCfg) (s : Bytes) : Bool := (c.ignoreEmpty && s.all isSpaceC) || (textArg c s).isEmpty
+
+/-- DRMREL `ds:KeyValue` (token element). -/
+def isKvRow (langId : Nat) (r : TagRow) : Bool := langId == 1801 && r.page == 0 && r.token == 0x0C
+
+def kvPar (l : Lang) : Option Name → Bool
+  | some (.token r) => isKvRow l.id r
+  | _ => false
+
+/-- `%Datetime` attribute names of the language. -/
+def dtAttrName (l : Lang) (nm : Bytes) : Bool :=
+  (l.attrs.getD []).any (fun r => dtRow l.id r && r.name == nm)
+
+/-- OTA settings: the attribute start whose value may be an icon (`VALUE`, page 0 token 0x11). -/
+def iconRow (langId : Nat) (r : AttrRow) : Bool := langId == 1901 && r.page == 0 && r.token == 0x11
+
+def iconValName (l : Lang) (nm : Bytes) : Bool := (l.attrs.getD []).any (fun r => iconRow l.id r && r.name == nm)
+
+/-- `NAME="ICON"` among the attributes of the current node. -/
+def iconCtx (na : Option (List Attr)) : Bool :=
+  match na with
+  | some attrs => attrs.any (fun a => a.name.cName == b!"NAME" && cstrOf a.value == b!"ICON")
+  | none => false
+
+/-- Per attribute: `validDatetimeText` for the `%Datetime` attributes. -/
+def dtAttrOk (l : Lang) (a : Attr) : Bool := !(dtAttrName l a.name.cName) || validDatetimeText (cstrOf a.value)
+
+/-- Per attribute: an OTA icon value decodes to at least one octet (D5). -/
+def iconAttrOk (l : Lang) (na : Option (List Attr)) (a : Attr) : Bool :=
+  !(iconCtx na && iconValName l a.name.cName) || (cstrOf a.value).isEmpty || b64NonEmpty (cstrOf a.value)
+
+/-- Whether the children of an element called `nm` may find a typed tag in the reader's
+    `current_tag` slot or as their own tag: a token name by its row; a literal name inherits the flag
+    (the slot is kept across a literal tag) or may be resolved to a typed row of that name. -/
+def kidsTy (l : Lang) (ty : Bool) : Name → Bool
+  | .token r => typedRow l.id r
+  | .literal s => ty || (l.tags.getD []).any (fun r => r.name == cstrOf s && typedRow l.id r)
+
+mutual
+/-- Finding `cdata-in-typed-element`: no CDATA section and no embedded document where the reader
+    applies a typed-content rule (`ty`). -/
+def noCdataInTyped (l : Lang) (ty : Bool) : Node → Bool
+  | .elt nm _ kids => noCdataInTypedL l (kidsTy l ty nm) kids
+  | .text _ => true
+  | .cdata kids => !ty && noCdataInTypedL l ty kids
+  | .tree _ _ _ => !ty
+def noCdataInTypedL (l : Lang) (ty : Bool) : List Node → Bool
+  | [] => true
+  | n :: rest => noCdataInTyped l ty n && noCdataInTypedL l ty rest
+end
+
+mutual
+/-- Finding `invalid-datetime-attribute-accepted`, for every attribute of the tree. -/
+def validDatetimeAttrs (l : Lang) : Node → Bool
+  | .elt _ attrs kids => attrs.all (dtAttrOk l) && validDatetimeAttrsL l kids
+  | .text _ => true
+  | .cdata kids => validDatetimeAttrsL l kids
+  | .tree _ _ _ => true
+def validDatetimeAttrsL (l : Lang) : List Node → Bool
+  | [] => true
+  | n :: rest => validDatetimeAttrs l n && validDatetimeAttrsL l rest
+end
+
+mutual
+/-- D5: every text the encoder sends as base64-decoded OPAQUE (text under DRMREL `ds:KeyValue`, the
+    `VALUE` of an OTA `PARM NAME="ICON"`) decodes to at least one octet. `parent` = name of the
+    enclosing element. -/
+def b64TextDecodes (c : WCfg) (parent : Option Name) : Node → Bool
+  | .elt nm attrs kids => attrs.all (iconAttrOk c.lang (some attrs)) && b64TextDecodesL c (some nm) kids
+  | .text s => !(kvPar c.lang parent) || textSilent c s || b64NonEmpty (textArg c s)
+  | .cdata kids => b64TextDecodesL c none kids
+  | .tree _ _ _ => true
+def b64TextDecodesL (c : WCfg) (parent : Option Name) : List Node → Bool
+  | [] => true
+  | n :: rest => b64TextDecodes c parent n && b64TextDecodesL c parent rest
+end
+
+def isTextN : Node → Bool
+  | .text _ => true
+  | _ => false
+
+mutual
+/-- Text of a DRMREL `ds:KeyValue` element precedes its child elements (`pre` = only text nodes so
+    far): the encoder types the text by its parent, the parser by its `current_tag` slot, which an
+    element end clears. -/
+def keyValueTextFirst (c : WCfg) (parent : Option Name) (pre : Bool) : Node → Bool
+  | .elt nm _ kids => keyValueTextFirstL c (some nm) true kids
+  | .text s => !(kvPar c.lang parent) || pre || textSilent c s
+  | .cdata kids => keyValueTextFirstL c none pre kids
+  | .tree _ _ _ => true
+def keyValueTextFirstL (c : WCfg) (parent : Option Name) (pre : Bool) : List Node → Bool
+  | [] => true
+  | n :: rest => keyValueTextFirst c parent pre n && keyValueTextFirstL c parent (pre && isTextN n) rest
+end
+
+/-- Table facts of the typed forms: no binary-flagged tag has a typed-content rule, and the OTA icon
+    attribute start carries no value prefix. -/
+def typedLangOk (l : Lang) : Bool :=
+  (l.tags.getD []).all (fun r => r.opts &&& 1 == 0 || !typedRow l.id r) &&
+  (l.attrs.getD []).all (fun r => !iconRow l.id r || (r.value.getD []).isEmpty)
 
 end Wbxml.Lemmas.EncW
